@@ -22,7 +22,7 @@ def run_cases(bases, cases_path, trace, work, seed, ncases, wall_per_case=120, v
         with open(prog, "w") as f:
             f.write("%d\n" % start)
         p = subprocess.Popen([vh or vlib.VH, "c01", "run", "--bases", bases, "--in", cases_path, "--out", trace, "--progress", prog, "--from", str(start), "--seed", str(seed)],
-                             stdout=subprocess.DEVNULL, stderr=subprocess.PIPE, preexec_fn=lambda: __import__("resource").setrlimit(__import__("resource").RLIMIT_AS, (8 << 30, 8 << 30)))
+                             stdout=subprocess.DEVNULL, stderr=subprocess.PIPE, preexec_fn=lambda: __import__("resource").setrlimit(__import__("resource").RLIMIT_AS, (4 << 30, 4 << 30)))
         last, last_t, why = None, time.time(), None
         while True:
             try:
